@@ -2,7 +2,7 @@
    (on every stream that contains a draw hitting a usable channel -- and a usable channel always exists; see C09_*_refuted for the
    literal "every random stream", which the rejection loops do not satisfy: recorded known finding). *)
 From Coq Require Import NArith ZArith List Bool.
-From LoraV Require Import Base.Bytes Gen.RegionTables Model.Region Model.Mac Proofs.OtaaProofs Proofs.TxProofs.
+From LoraV Require Import Base.Bytes Gen.RegionTables Model.Region Model.Mac Proofs.OtaaProofs Proofs.TxProofs Proofs.NoPanicProofs Model.Frame Model.NbDev Proofs.TxHistory.
 Import ListNotations.
 Local Open Scope nat_scope.
 
@@ -81,3 +81,45 @@ Theorem C09_termination_every_stream_refuted_data :
   let p := {| fp_mask := [3; 0; 0; 0; 0; 0; 0; 0; 0]%N; fp_jc := jc_default |} in
   any_enabled (fp_mask p) 0 64 = true /\ forall n, fix_select_masked 8%N p 0%N (repeat 5%N n) = OutOfDraws.
 Proof. exact data_constant_stream_refuted. Qed.
+
+(* ------------------------------------------------------------------ along whole histories *)
+(* EVERY selection path (dynamic data / join, fixed plan through the mask, through the join-channel bookkeeping incl. the join bias,
+   first data channel after a biased join), from every region state satisfying the shape invariant (which every MAC operation keeps:
+   C04): a channel of the region -- dynamic plans: in band; fixed plans: on the uplink channel map with index <= 71 and the bandwidth of
+   the data rate matching the channel kind (125 kHz <-> 0..63, 500 kHz <-> 64..71) -- at a data rate the region defines *)
+Theorem C09_every_selection_path_legal : forall g dr join draws tc g' rest, region_ok g ->
+  region_select g dr join draws = Val (tc, g', rest) -> chan_legal (rg_id g) tc.
+Proof. exact region_select_legal. Qed.
+
+Section C09_hist.
+  Variable enc mac_fn : list N -> list N -> list N.
+  Hypothesis enc_len : forall k b, length (enc k b) = 16.
+  Hypothesis mac_len : forall k b, length (mac_fn k b) = 16.
+
+  (* what send / join_otaa hand to the radio: a legal channel of the device's region, the rf parameters of its data rate, a power within
+     127 and the board's limit; the device (region, limit) is never changed *)
+  Theorem C09_send_transmission_legal : forall m data fport confirmed draws o, mac_ok m ->
+    send enc mac_fn m data fport confirmed draws = Val (SendOk o) -> tx_ok (dev_of m) (to_tx o) /\ dev_of (to_mac o) = dev_of m.
+  Proof. exact (send_tx_ok enc mac_fn). Qed.
+  Theorem C09_join_transmission_legal : forall m c draws o, mac_ok m ->
+    join_otaa mac_fn m c draws = Val o -> tx_ok (dev_of m) (to_tx o) /\ dev_of (to_mac o) = dev_of m.
+  Proof. exact (join_tx_ok mac_fn). Qed.
+
+  (* nb_device: along EVERY sequence of events (join / send requests, radio events with any answer incl. any received bytes, timeouts;
+     a fault at any radio call) every frame handed to the radio is legal for the device *)
+  Theorem C09_nb_every_transmission_legal : forall evs st m e, mac_ok m -> trace_ok (dev_of m) e ->
+    let '(st', m', e') := nb_run enc mac_fn st m e evs in
+    trace_ok (dev_of m) e' /\ mac_ok m' /\ dev_of m' = dev_of m.
+  Proof. exact (nb_every_transmission_legal enc mac_fn enc_len mac_len). Qed.
+
+  (* ... in particular from a freshly built device of any of the 9 regions *)
+  Theorem C09_nb_fresh_device : forall r p g fault evs, (r < 9)%N ->
+    let '(st', m', e') := nb_run enc mac_fn NIdle (mac_new r p g) {| n_calls := 0; n_fault := fault; n_trace := [] |} evs in
+    Forall (ncall_ok (r, p)) (n_trace e').
+  Proof.
+    intros r p g fault evs Hr.
+    pose proof (nb_every_transmission_legal enc mac_fn enc_len mac_len evs NIdle (mac_new r p g) {| n_calls := 0; n_fault := fault; n_trace := [] |}
+                  (mac_new_ok r p g Hr) (Forall_nil _)) as H.
+    destruct (nb_run _ _ _ _ _ _) as [[st' m'] e']. exact (proj1 H).
+  Qed.
+End C09_hist.
